@@ -1046,3 +1046,23 @@ func staleDecodeDests(fns []*ssa.Function) (sites []ssa.CallInstruction, stale [
 	}
 	return
 }
+
+// sCmp: the specs under which "X rel Y" is known to hold (see cmpEdges).
+func sCmp(rel string, px, py func(ssa.Value) bool) []condSpec {
+	switch rel {
+	case ">":
+		return sCmp("<", py, px)
+	case ">=":
+		return sCmp("<=", py, px)
+	case "<":
+		return []condSpec{
+			{true, func(a Atom) bool { return a.Op == token.LSS && px(a.X) && py(a.Y) }},
+			{false, func(a Atom) bool { return a.Op == token.LEQ && py(a.X) && px(a.Y) }},
+		}
+	default: // "<="
+		return []condSpec{
+			{true, func(a Atom) bool { return a.Op == token.LEQ && px(a.X) && py(a.Y) }},
+			{false, func(a Atom) bool { return a.Op == token.LSS && py(a.X) && px(a.Y) }},
+		}
+	}
+}
